@@ -407,7 +407,7 @@ def frame_schema(kname: str, n: int) -> Tuple[G.Schema, List[Tuple[G.MsgDef, int
     for off in range(8):
         for pos in range(4):
             ft = [t, G.TArray(t, 3, False), G.TRef(al), G.TArray(G.TRef(al), 2, False)][pos]
-            m = G.MsgDef(f"F{off}P{pos}", False)
+            m = G.MsgDef(f"F{chr(97 + off)}P{chr(97 + pos)}", False)  # letters only: pascal_case("F7P3") is "F7p3"
             if off:
                 m.fields.append(G.Field("pad", 1, G.TUint(off)))
             m.fields.append(G.Field("x", 2, ft))
